@@ -342,8 +342,44 @@ pub fn def() -> CheckDef {
             "reader/writer interleavings on the shared store are not explored",
         ],
         sections: vec![
+            Box::new(ReplayOnly { name: "fuzz-bytes", check: check_raw }),
             Box::new(PropSection { name: "pipeline", rule: "datagram sequences through the handling steps", strategy, cases: (12_000, 300_000), check }),
             Box::new(EnumSection { name: "sockets", rule: "real services on loopback multicast", enumerate: enum_socket, check: check_socket, exhaustive: false }),
         ],
     }
+}
+
+/// fuzz entry: datagrams are 2-byte-length-prefixed chunks of the input, handled against a store
+/// holding the C13 catalogue (authoritative), two cached records and the canary
+pub fn fuzz_entry(data: &[u8], case: &mut Case) -> Result<(), Fail> {
+    let mut mgr: ResourceRecordManager<'static> = ResourceRecordManager::new();
+    for (i, r) in super::c13::catalogue().into_iter().enumerate() {
+        apply_to_store(&mut mgr, &if i % 5 == 4 { Op::AddCached(r) } else { Op::AddAuth(r) })?;
+    }
+    apply_to_store(&mut mgr, &Op::AddAuth(canary()))?;
+    let service_name = Name::new(SERVICE).unwrap().into_owned();
+    let full_name = Name::new("self._srv._tcp.local").unwrap().into_owned();
+    let store = RwLock::new(mgr);
+    let (tx, _rx) = std::sync::mpsc::channel();
+    let mut chan = Some(tx);
+    let mut pos = 0;
+    let mut n = 0;
+    while pos + 2 <= data.len() && n < 16 {
+        let len = u16::from_be_bytes([data[pos], data[pos + 1]]) as usize;
+        pos += 2;
+        let end = (pos + len).min(data.len());
+        handle_datagram(&data[pos..end], &store, &service_name, &full_name, &mut chan, case)?;
+        pos = end;
+        n += 1;
+    }
+    let q = APacket { id: 9, questions: vec![AQuestion { name: canary().name, qtype: 1, qclass: 1, unicast: false }], ..Default::default() };
+    let qp = lib("build", || build(&q))?.map_err(|e| Fail::new("harness:build", e))?;
+    let guard = store.read().map_err(|_| Fail::new("c14:lock-poisoned", "the record store lock is poisoned"))?;
+    let answered = lib("build_reply", || build_reply(qp, &guard).map(|(p, _)| p.answers.len()))?;
+    ensure!(answered == Some(1), "c14:store-unusable", "after the datagrams the store answers the canary query with {:?}", answered);
+    Ok(())
+}
+
+fn check_raw(b: &Bytes, case: &mut Case) -> Result<(), Fail> {
+    fuzz_entry(b, case)
 }
